@@ -145,12 +145,47 @@ def runStep (t : Tree) (j : J) : Option (Tree × J) := do
     pure (mapAt (setAccW b) t recv, .str "ok")
   | _ => none
 
+/-- A step of thread `t`: entering / leaving a scope changes that thread's stacks only. -/
+def scopeStep (envs : List Env) (j : J) : Option (List Env) := do
+  let t ← j.getNat? "t"
+  let which ← j.getStr? "which"
+  let env ← envs[t]?
+  let act ← match j.getStr? "kind", which with
+    | some "enter", "sealed" => (j.get? "v").bind scopeOfJ |>.map ScopeAct.enterSealed
+    | some "enter", "acc" => (j.get? "v").bind scopeOfJ |>.map ScopeAct.enterAcc
+    | some "leave", "sealed" => some ScopeAct.leaveSealed
+    | some "leave", "acc" => some ScopeAct.leaveAcc
+    | _, _ => none
+  pure (envs.set t (env.act act))
+
+/-- In a threaded case the scopes of a call are those of the thread that makes it. -/
+def withThreadScopes (envs : List Env) (j : J) : J :=
+  match j.getNat? "t" >>= (envs[·]?) with
+  | some env =>
+    let enc := fun (st : List (Option Bool)) => J.arr (st.reverse.map fun v => match v with
+      | some b => J.bool b
+      | none => J.null)
+    match j with
+    | .obj kvs => .obj (kvs.filter (fun kv => kv.1 != "sealed_scopes" && kv.1 != "acc_scopes") ++
+        [("sealed_scopes", enc env.sealedStack), ("acc_scopes", enc env.accStack)])
+    | j => j
+  | none => j
+
 /-- The forest: the tree the caller holds and, optionally, the external value its `pg.Ref`
 elements refer to (`"in": "ext"` addresses a node of that one). Nothing done to one tree reaches
-the other. -/
-def runSteps : Tree → Option Tree → List J → Option (List J)
-  | _, _, [] => some []
-  | t, ext, s :: rest => do
+the other. `envs`: the scopes of the threads (threaded cases). -/
+def runSteps : List Env → Tree → Option Tree → List J → Option (List J)
+  | _, _, _, [] => some []
+  | envs, t, ext, s :: rest =>
+    if s.getStr? "kind" == some "enter" || s.getStr? "kind" == some "leave" then do
+      let envs' ← scopeStep envs s
+      let more ← runSteps envs' t ext rest
+      let out := [("res", J.str "ok"), ("tree", treeToJ t)] ++ (match ext with
+        | some e => [("ext", treeToJ e)]
+        | none => [])
+      pure (.obj out :: more)
+    else do
+    let s := withThreadScopes envs s
     let inExt := s.getStr? "in" == some "ext"
     let (t', ext', r) ← (if inExt then do
         let e ← ext
@@ -159,7 +194,7 @@ def runSteps : Tree → Option Tree → List J → Option (List J)
       else do
         let (t', r) ← runStep t s
         pure (t', ext, r))
-    let more ← runSteps t' ext' rest
+    let more ← runSteps envs t' ext' rest
     let out := [("res", r), ("tree", treeToJ t')] ++ (match ext' with
       | some e => [("ext", treeToJ e)]
       | none => [])
@@ -176,7 +211,8 @@ def handle (j : J) : J :=
   | some "run" =>
     match (j.get? "tree").bind treeOfJ, j.getArr? "steps" with
     | some t, some steps =>
-      match runSteps t ((j.get? "ext").bind treeOfJ) steps with
+      let nthreads := (j.getNat? "threads").getD 0
+      match runSteps (List.replicate nthreads ⟨[], []⟩) t ((j.get? "ext").bind treeOfJ) steps with
       | some outs => .obj [("steps", .arr outs)]
       | none => bad "run: step"
     | _, _ => bad "run"
